@@ -328,6 +328,19 @@ static void run_case(Tape &t)
 	do_run(false, nonce, aad, rct, { al }, { ml }, shortcut, rd, 1, rtag, tl);
 	VF_CHECK(rd.out == msg, "%s: decryption does not return the message", desc.c_str());
 	VF_CHECK(rd.check == 1, "%s: check_tag fails on an untampered message", desc.c_str());
+	// (2b) and so does decryption with the generated split (for CCM the MAC runs over the *plaintext*, so a partial block carried from
+	// one run() call to the next is handled differently for the two directions)
+	if (asp.size() > 1 || msp.size() > 1) {
+		Run rs;
+		do_run(false, nonce, aad, rct, asp, msp, shortcut, rs, 1, rtag, tl);
+		VF_CHECK(rs.out == msg, "%s: split decryption does not return the message (first difference at %zu)", desc.c_str(),
+			(size_t)(std::mismatch(rs.out.begin(), rs.out.end(), msg.begin()).first - rs.out.begin()));
+		VF_CHECK(rs.check == 1, "%s: check_tag fails on an untampered message decrypted in several run() calls", desc.c_str());
+		Run rg;
+		do_run(false, nonce, aad, rct, asp, msp, shortcut, rg);
+		VF_CHECK(memcmp(rg.tag, rtag, tl) == 0, "%s: tag computed while decrypting in several run() calls is %s, reference %s", desc.c_str(), hex(rg.tag, tl).c_str(), hex(rtag, tl).c_str());
+		stats.cls("split-decryption");
+	}
 	// (4) one generated single-bit change -> check_tag must fail
 	{
 		unsigned where = t.u8() % 4, pos = t.u16(), bit = t.u8() % 8;
